@@ -184,6 +184,9 @@ class ResourceAuthZAttributes:
             self._collect_attributes_from_ns(ns, in_slice_ports)
         for fac in topo.facilities.values():
             self._attributes[self.RESOURCE_FACILITY_PORT].append(fac.name)
+            # the facility's site is a site the slice uses, whether or not the type of its service has a site recorded
+            if fac.site and fac.site not in self._attributes[self.RESOURCE_SITE]:
+                self._attributes[self.RESOURCE_SITE].append(fac.site)
 
     def _collect_attributes_from_node(self, node: Node):
         self._collect_attributes_from_node_sliver(node.get_sliver())
